@@ -108,6 +108,9 @@ pub struct Replica {
     pub last_orders: BTreeMap<String, Vec<String>>,
     pub commits: u64,
     pub failed_commit_pending: bool,
+    /// false between a commit made while a foreign block was held back and the next refresh: the
+    /// commit's own pack may have completed that block, which the replica only learns by refreshing
+    pub fresh: bool,
 }
 
 pub struct Msg {
@@ -200,6 +203,7 @@ impl World {
                 last_orders: BTreeMap::new(),
                 commits: 0,
                 failed_commit_pending: false,
+                fresh: true,
             });
         }
         Ok(w)
@@ -350,7 +354,7 @@ impl World {
                 self.replicas[*r].disk.with(|d| d.disk_full = *on);
                 Ok(())
             }
-            Op::Read { r } => self.op_read(*r),
+            Op::Read { r, what } => self.op_read(*r, *what),
             Op::Converge { commit } => self.op_converge(*commit),
             Op::SameEdit { a, b, doc } => self.op_same_edit(*a, *b, doc),
         }
@@ -558,9 +562,19 @@ impl World {
         Ok(())
     }
 
-    fn op_read(&mut self, r: usize) -> Res {
+    fn op_read(&mut self, r: usize, what: u8) -> Res {
         let m = self.live(r);
-        let _ = self.call("read", || read_doc(m))?;
+        match what {
+            1 => {
+                let _ = self.call("has_staging", || m.has_staging())?;
+            }
+            2 => {
+                let _ = self.call("in_conflict", || m.in_conflict())?;
+            }
+            _ => {
+                let _ = self.call("read", || read_doc(m))?;
+            }
+        }
         Ok(())
     }
 
@@ -760,6 +774,7 @@ impl World {
                     self.replicas[r].clean_digest = Some(after.clone());
                 }
                 if held_back {
+                    self.replicas[r].fresh = false;
                     self.bump("probe.commit_sync_skipped_held_back");
                     return Ok(());
                 }
@@ -1019,6 +1034,7 @@ impl World {
             Ok(()) => {
                 self.replicas[r].seen = keys_now;
                 self.replicas[r].time_travel = false;
+                self.replicas[r].fresh = true;
                 let after = self.digest_of(r)?;
                 if self.is(&["C12"]) {
                     // nothing new to apply => nothing may change
@@ -1058,6 +1074,7 @@ impl World {
         match res {
             Ok(m) => {
                 self.replicas[r].live = Some(m);
+                self.replicas[r].fresh = true;
                 self.replicas[r].seen = self.replicas[r].disk.keys();
                 self.replicas[r].time_travel = false;
                 self.replicas[r].model_doc = None;
@@ -1457,10 +1474,10 @@ impl World {
             let seen = &self.replicas[r].seen;
             self.replicas[r].disk.items().into_iter().filter(|(k, _)| seen.contains(k)).collect()
         };
-        if self.is(&["C01", "C02", "C05", "C13", "C14", "C16", "C03", "C06", "C07"]) {
+        if self.is(&["C01", "C02", "C05", "C13", "C14", "C16", "C03", "C06", "C07", "C09"]) {
             let st = RefState::from_items(&items);
             self.compare_with_ref(r, &d, &st, when)?;
-            if self.is(&["C02", "C13"]) {
+            if self.is(&["C02", "C13", "C09"]) {
                 self.check_block_status(r, &st, when)?;
             }
             if self.is(&["C13"]) {
@@ -1476,7 +1493,7 @@ impl World {
         if self.is(&["C01", "C02"]) && when != "commit" {
             self.check_reopen_equals_live(r, &d, when)?;
         }
-        if self.is(&["C01"]) && fully_seen {
+        if self.is(&["C01"]) && fully_seen && self.replicas[r].fresh {
             self.check_pairwise_convergence(r, &d)?;
         }
         if self.is(&["C05", "C19"]) {
@@ -1779,7 +1796,7 @@ impl World {
     fn check_pairwise_convergence(&mut self, r: usize, d: &Value) -> Res {
         let mine = self.replicas[r].disk.items();
         for o in 0..self.replicas.len() {
-            if o == r || self.replicas[o].live.is_none() || self.replicas[o].time_travel {
+            if o == r || self.replicas[o].live.is_none() || self.replicas[o].time_travel || !self.replicas[o].fresh {
                 continue;
             }
             if self.replicas[o].seen != self.replicas[o].disk.keys() {
